@@ -37,7 +37,7 @@ theorem for_step_correct {ms : MacroSem} {c : Ctx} (hc : c.ok = true) {σC σIL 
   -- first: the temporary (IL side only)
   have h1 : evalPure ms σIL [] (.varl v) = .ok (.bv 32 x) := by simp only [evalPure, hlIL]
   have hinv1 : Inv c σC { σIL with locals := setLocal σIL.locals tmp (.bv 32 x) } := by
-    refine ⟨hinv.rel.setIL tmp _ (hinv.tmpFree tmp htmp), hinv.inv.setLocal tmp _ ?_ ?_, hinv.tmpFree⟩
+    refine hinv.setIL tmp _ (hinv.tmpFree tmp htmp) ?_ ?_
     · intro t' ht'
       have := (Ctx.ok_types hc ht').1
       rw [htmp] at this; cases this
